@@ -168,6 +168,31 @@ func c07Run(e *core.Env) {
 			do("SetString", u, nil, 0, cc, sps[0])
 		}
 	}
+	// high-precision block
+	for iu := range sp.HiUs {
+		if !e.Mine(int64(iu)) {
+			continue
+		}
+		e.State()
+		for _, cc := range sp.HiCtxs {
+			for _, op := range c07Unary {
+				do(op, sp.HiUs[iu], nil, 0, cc, "")
+			}
+			do("SetString", sp.HiUs[iu], nil, 0, cc, spellings(sp.HiUs[iu].V)[0])
+		}
+	}
+	for ip := range sp.HiPairs {
+		if !e.Mine(int64(ip)) {
+			continue
+		}
+		pr := sp.HiPairs[ip]
+		e.State()
+		for _, cc := range sp.HiCtxs {
+			for _, op := range c07Binary {
+				do(op, pr[0], &pr[1], 0, cc, "")
+			}
+		}
+	}
 	// transcendental functions: DENSE(2,3) singles x p <= 5 (thorough: DENSE(3,3) on a stride)
 	k := 2
 	if e.Thorough() {
